@@ -29,6 +29,7 @@ class Check:
         self.tier = tier
         self.seed = seed
         self.t0 = time.time()
+        shutil.rmtree(os.path.join(REPLAYS, pid), ignore_errors=True)
         self.work = os.path.join(tlc.WORK, "%s_%d" % (pid, os.getpid()))
         shutil.rmtree(self.work, ignore_errors=True)
         os.makedirs(self.work, exist_ok=True)
@@ -115,6 +116,15 @@ class Check:
             return "known"
         self.violations.append({"signature": signature, "replay": replay})
         return "violation"
+
+    def known_deviation(self, dev, replay):
+        """a fired deviation of the machine layer: is it a listed (status known) finding?"""
+        for f in self.findings:
+            if f.get("status") == "known" and f.get("match", {}).get("deviation") == dev:
+                hit = self.known_hits.setdefault(f["id"], [0, f["what"], replay])
+                hit[0] += 1
+                return True
+        return False
 
     def drift(self, n=1):
         self.cov["model_drift"] += n
